@@ -102,7 +102,7 @@ Definition import_simple (f : fam) (ps : list F) : res (list F) :=
   | FGeometric => need 1%nat (fle (p 0%nat) zero || flt one (p 0%nat)) [p 0%nat]
   | FGev => need 3%nat (fle (p 1%nat) zero) [p 0%nat; p 1%nat; p 2%nat]
   | FLaplace => need 2%nat (fle (p 1%nat) zero) [p 0%nat; p 1%nat]
-  | FNegBinomial => need 2%nat (fle (p 0%nat) zero || flt (p 1%nat) zero || flt one (p 1%nat)) [p 0%nat; p 1%nat]
+  | FNegBinomial => need 2%nat (fle (p 0%nat) zero || flt (p 1%nat) zero || fle one (p 1%nat)) [p 0%nat; p 1%nat]
   | FNormal => need 2%nat (fle (p 1%nat) zero) [p 0%nat; p 1%nat]
   | FPareto => need 2%nat (fle (p 0%nat) zero || fle (p 1%nat) zero) [p 0%nat; p 1%nat]
   | FGPareto => need 3%nat (fle (p 1%nat) zero) [p 0%nat; p 1%nat; p 2%nat]
